@@ -32,7 +32,9 @@ def render(doc):
             out.append('a %s' % a)
         out.append('s %s' % ' '.join(r.flags))
         if r.bandwidth is not None:
-            out.append('w Bandwidth=%d' % r.bandwidth)
+            # dir-spec: "w" SP "Bandwidth=" INT [SP "Measured=" INT] [SP "Unmeasured=1"]
+            extra = ' Unmeasured=1' if r.ident % 2 else (' Measured=%d' % (r.bandwidth + 7) if r.ident % 3 == 0 else '')
+            out.append('w Bandwidth=%d%s' % (r.bandwidth, extra))
         if r.policy is not None:
             out.append('p %s' % r.policy)
     return out
